@@ -645,6 +645,20 @@ class LayoutEval:
                 return self.ctor(f[1], args, kwargs, node)
             if f[0] == "class":
                 return self.instantiate(f[1], f[2], args, kwargs, node)
+            if f[0] == "ext" and f[1] in ("enum.IntEnum", "enum.Enum", "enum.IntFlag", "enum.Flag") and len(args) >= 2:
+                # the functional API: IntEnum("Name", names, start=1) - names as a list / string of names (numbered from `start`), pairs or a mapping
+                names, start = args[1], kwargs.get("start", 1)
+                if isinstance(names, str):
+                    names = names.replace(",", " ").split()
+                if isinstance(names, dict):
+                    members = dict(names)
+                elif isinstance(names, list) and all(isinstance(x, str) for x in names) and isinstance(start, int):
+                    members = {nm: start + i for i, nm in enumerate(names)}
+                elif isinstance(names, list) and all(isinstance(x, (list, tuple)) and len(x) == 2 for x in names):
+                    members = {x[0]: x[1] for x in names}
+                else:
+                    raise AnalysisError(f"layout: {f[1]}(...) with members given as {names!r:.60}; not decided")
+                return ("enumclass", members)
             if f[0] == "ext":
                 return ("extcall", f[1], tuple(repr(a) for a in args))
         raise AnalysisError(f"unmodelled call in layout: {norm(node)[:120]} ({mod.name})")
@@ -754,6 +768,8 @@ class LayoutEval:
                             mapping[st.targets[0].id] = self.ev(st.value, emod, {})
                 elif isinstance(extra, Con) and extra.kind == "enum":
                     mapping.update(extra.mapping)
+                elif isinstance(extra, tuple) and len(extra) == 2 and extra[0] == "enumclass":
+                    mapping.update(extra[1])
                 else:
                     raise AnalysisError(f"construct.Enum(..., {extra!r:.40}): positional table that is neither an enum class nor an Enum construct")
             mapping.update(kwargs)
